@@ -39,7 +39,15 @@ def main(argv):
     seed = int(os.environ.get('VERIF_SEED', '1') or 1)
     units = vf.load_units()
     extra = sys.modules.get('extra_checks')
-    sel = [u for u in units.values() if prop in u['props'] and (tier == 'thorough' or u.get('tier', 'quick') == 'quick')]
+    # quick: the units whose primary property (props[0]) is this one, or that list it under quick_props;
+    # thorough: every unit that carries the property tag.  tier 'off' units are kept in the tree but never run.
+    def wanted(u):
+        if prop not in u['props'] or u.get('tier') == 'off':
+            return False
+        if tier == 'thorough':
+            return True
+        return u.get('tier', 'quick') == 'quick' and (u['props'][0] == prop or prop in u.get('quick_props', []))
+    sel = [u for u in units.values() if wanted(u)]
     evid_path = os.path.join(VERIF, 'evidence', prop + '.json')
     os.makedirs(os.path.dirname(evid_path), exist_ok=True)
     if not sel:
@@ -120,6 +128,28 @@ def main(argv):
                 samples.append({'unit': r['unit'], 'obligation': o['id'], 'where': '%s:%s' % (o['file'], o['line']), 'text': o['desc'], 'status': o['status']})
     rc = 0
     out_lines = []
+    extra_info = {}
+    if prop == 'C15':
+        # supporting static fact (not proof): writable-section symbol set of the rebuilt library objects == committed baseline
+        import statics
+        st = statics.check()
+        extra_info['static_symbol_scan'] = {'library_sources_compiled': st['files'], 'writable_symbols': st['symbols'],
+                                            'new_or_grown': st['new'], 'compile_errors': st['errors'][:5], 'symbols': st['list']}
+        if st['errors']:
+            undec.append('statics: %d library sources did not compile: %s' % (len(st['errors']), st['errors'][0][:200]))
+        if st['new']:
+            rp = os.path.join(VERIF, 'replay', 'out', 'C15.statics.replay.txt')
+            os.makedirs(os.path.dirname(rp), exist_ok=True)
+            with open(rp, 'w') as f:
+                f.write('property: C15\nobligation: writable-section symbol set of the library == /verif/contracts/static_baseline.txt\n'
+                        'verifier: gcc -c of every library source of /repo working tree + nm (engine/statics.py)\n\n' + '\n'.join(st['new']) +
+                        '\n\nno-failing-input-found: a new shared mutable object is a structural violation; no schedule is exhibited.\n')
+            out_lines.append('VIOLATION property=C15 replay=%s no-failing-input-found' % rp)
+            extra_viol = len(st['new'])
+        else:
+            extra_viol = 0
+    else:
+        extra_viol = 0
     for hit, o in knownhits:
         out_lines.append('KNOWN-FINDING: property=%s %s' % (prop, hit['text']))
     replay_paths = []
@@ -134,9 +164,11 @@ def main(argv):
         rc = 1
     elif undec or selftest_bad:
         rc = 2
+    if extra_viol:
+        rc = 1
     # extra (non-CBMC) supporting checks registered for the property
     ev = {
-        'property_id': prop, 'tier': tier, 'seed': seed, 'level': 'proof',
+        'property_id': prop, 'tier': tier, 'seed': seed, 'level': {'C15': 'other'}.get(prop, 'proof'),
         'coverage': {
             'obligations': n_ob, 'discharged': n_ok,
             'checker_cmd': 'goto-cc --function h_<unit> <woven TU> ; goto-instrument --dfcc h_<unit> --enforce-contract <f> --replace-call-with-contract <g>... ; cbmc %s %s  (per unit; exact lines under units[].checker_cmd)' % (' '.join(vf.CBMC_BASE), ' '.join(vf.SOLVER)),
@@ -151,13 +183,14 @@ def main(argv):
             'functions_under_contract': sorted(set(functions)),
             'samples': samples[:12],
             'solver_s': round(solver_s, 1),
+            'supporting_static_facts': extra_info,
             'undecided': undec,
             'selftest_mutants_run': selftest_n, 'selftest_mutants_not_caught': selftest_bad,
             'explanation': 'Each unit: the real /repo source is preprocessed on this run, its loops are replaced by inductive cuts, and CBMC discharges the function contract (requires/ensures/assigns) with callees replaced by their contracts. obligations/discharged are counted from CBMC output of this run.',
         },
         'assumptions': sorted(assumptions),
         'wall_s': round(time.time() - t0, 1),
-        'violations': len(viol),
+        'violations': len(viol) + extra_viol,
     }
     with open(evid_path, 'w') as f:
         json.dump(ev, f, indent=1)
